@@ -1,4 +1,4 @@
-import ScVerif.C20.GauLin
+import ScVerif.C20.GauCount
 import ScVerif.C20.MeterConcLemmas
 /-!
 # C20 — property theorems, generic: trait-model writes under concurrent callers
@@ -20,17 +20,26 @@ namespace ScVerif.C20.Gau
 
 variable {σ ε : Type} [DecidableEq σ]
 
-/-- **Every interleaving is a sequential run**: there is a log of (call, clock reading) pairs, every
-call taken from the threads' programs, whose sequential replay from the initial value gives the final
-stored value. -/
+/-- **Every interleaving is a sequential run of exactly the successful calls**: there is a log of
+(call, clock reading) pairs, every call taken from the threads' programs, whose sequential replay from
+the initial value gives the final stored value, and which has exactly one entry per call that returned
+a value (`Thread.oks` counts the `ok` results; refused and aborted calls are not in the log). -/
 theorem C20_conc_linearizes (store : σ) (now : Int) (progs : List (List (Call σ ε))) (sched : List Ev) :
     ∃ log : List (Call σ ε × Int), (∀ p ∈ log, ∃ cs ∈ progs, p.1 ∈ cs) ∧
-      (Cfg.run ⟨store, now, progs.map Thread.ofCalls⟩ sched).store = replay store log := by
-  obtain ⟨log, hmem, h⟩ := run_linearizes sched (⟨store, now, progs.map Thread.ofCalls⟩ : Cfg σ ε)
-  refine ⟨log, fun p hp => ?_, h⟩
-  obtain ⟨th, hth, hx⟩ := List.mem_flatMap.mp (hmem p hp)
-  obtain ⟨cs, hcs, rfl⟩ := List.mem_map.mp hth
-  exact ⟨cs, hcs, by simpa [Thread.calls, Thread.ofCalls] using hx⟩
+      (Cfg.run ⟨store, now, progs.map Thread.ofCalls⟩ sched).store = replay store log ∧
+      (Cfg.run ⟨store, now, progs.map Thread.ofCalls⟩ sched).oks = log.length := by
+  obtain ⟨log, hmem, h, hcnt⟩ := run_linearizes_counted sched (⟨store, now, progs.map Thread.ofCalls⟩ : Cfg σ ε)
+  refine ⟨log, fun p hp => ?_, h, ?_⟩
+  · obtain ⟨th, hth, hx⟩ := List.mem_flatMap.mp (hmem p hp)
+    obtain ⟨cs, hcs, rfl⟩ := List.mem_map.mp hth
+    exact ⟨cs, hcs, by simpa [Thread.calls, Thread.ofCalls] using hx⟩
+  · have h0 : ∀ ps : List (List (Call σ ε)), ((ps.map Thread.ofCalls).map Thread.oks).sum = 0 := by
+      intro ps
+      induction ps with
+      | nil => rfl
+      | cons p rest ih => simpa [Thread.oks, Thread.ofCalls] using ih
+    have h1 : (⟨store, now, progs.map Thread.ofCalls⟩ : Cfg σ ε).oks = 0 := h0 progs
+    omega
 
 /-- **Clock-dependent rules**: a time-indexed invariant that stays true as time passes is preserved by
 every interleaving of calls that either read the clock inside the transaction and preserve it
@@ -56,9 +65,9 @@ theorem C20_meter_conc_is_sequential_run (store : Reading) (now : Int)
     (progs : List (List (Option String))) (sched : List Ev) :
     ∃ ops : List Op, (Cfg.run ⟨store, now, (progs.map codeCalls).map Thread.ofCalls⟩ sched).store
       = Meter.run store ops := by
-  obtain ⟨log, hmem, h⟩ := C20_conc_linearizes store now (progs.map codeCalls) sched
+  obtain ⟨log, hmem, h, _⟩ := C20_conc_linearizes store now (progs.map codeCalls) sched
   rw [h]
-  clear h
+  clear h ‹_ = log.length›
   induction log generalizing store with
   | nil => exact ⟨[], rfl⟩
   | cons p rest ih =>
